@@ -377,56 +377,43 @@ def _split_top(src, sep=","):
 
 def expand_macro(mdef, args_src):
     """Supports arms whose pattern is a comma-separated list of `$name:frag` metavariables,
-    optionally ending in `$( $name:frag ),*` -- the only shapes slicec's own macros use.
-    Anything else raises RsxError (exit 2)."""
+    optionally followed by ONE comma-separated repetition `$( $name:frag ),*` (or `+`), with an
+    optional trailing `$(,)?` -- the only shapes slicec's own macros use. Anything else raises
+    RsxError (exit 2)."""
     args = _split_top(args_src)
     if args and args[-1] == "":
         args = args[:-1]
     for pat, body in mdef.arms:
-        pparts = _split_top(pat)
-        if pparts and pparts[-1] == "":
-            pparts = pparts[:-1]
-        binds, rep = {}, None
+        p = re.sub(r"\$\(\s*,\s*\)\s*\?\s*$", "", pat.strip()).strip()
+        rep_name = None
+        m = re.match(r"^(?P<fixed>(?:\s*\$\w+\s*:\s*\w+\s*,)*)\s*\$\(\s*\$(?P<rep>\w+)\s*:\s*\w+\s*\)\s*,\s*[\*\+]\s*$", p)
+        if m:
+            rep_name = m.group("rep")
+            fixed = [x for x in _split_top(m.group("fixed")) if x]
+        else:
+            fixed = [x for x in _split_top(p) if x]
+        names = []
         ok = True
-        ai = 0
-        for pi, pp in enumerate(pparts):
-            m = re.fullmatch(r"\$(\w+)\s*:\s*(\w+)", pp)
-            if m:
-                if ai >= len(args):
-                    ok = False
-                    break
-                binds[m.group(1)] = args[ai]
-                ai += 1
-                continue
-            m = re.fullmatch(r"\$\(\s*\$(\w+)\s*:\s*(\w+)\s*\)\s*,?\s*[\*\+]", pp) or \
-                re.fullmatch(r"\$\(\s*\$(\w+)\s*:\s*(\w+)\s*$", pp)
-            if m and pi == len(pparts) - 1 or (m and pi == len(pparts) - 2 and re.fullmatch(r"\)?\s*[\*\+]", pparts[-1] or "")):
-                rep = (m.group(1), args[ai:])
-                ai = len(args)
+        for fp in fixed:
+            mm = re.fullmatch(r"\$(\w+)\s*:\s*(\w+)", fp)
+            if not mm:
+                ok = False
                 break
-            # literal token pattern
-            if ai < len(args) and args[ai] == pp:
-                ai += 1
-                continue
-            ok = False
-            break
-        if not ok or ai != len(args):
+            names.append(mm.group(1))
+        if not ok:
             continue
+        if rep_name is None and len(args) != len(names):
+            continue
+        if rep_name is not None and len(args) < len(names):
+            continue
+        binds = dict(zip(names, args[:len(names)]))
         out = body
-        if rep is not None:
-            name, vals = rep
-
-            def rep_sub(m):
-                inner = m.group(1)
-                sep = m.group(2) or ""
-                return (sep + " ").join(inner.replace("$" + name, v) for v in vals)
-
-            # $( ... )sep*  with balanced parens inside: find manually
-            out = _expand_repetitions(out, name, vals)
+        if rep_name is not None:
+            out = _expand_repetitions(out, rep_name, args[len(names):])
         for k, v in sorted(binds.items(), key=lambda kv: -len(kv[0])):
             out = re.sub(r"\$" + k + r"\b", lambda _m, v=v: v, out)
         out = re.sub(r"\$crate\b", "crate", out)
-        if "$" in re.sub(r'"(?:[^"\\]|\\.)*"', "", out):
+        if "$" in re.sub(r'"(?:[^"\\\\]|\\\\.)*"', "", out):
             raise RsxError(f"macro {mdef.name}: unexpanded metavariable remains (unsupported shape)")
         return out
     raise RsxError(f"macro {mdef.name}: no arm matches arguments {args_src!r}")
